@@ -709,7 +709,8 @@ class HyperElasticState:
         T1x, T1y, T1z = self._Get_normalized_components(T1)
         T2x, T2y, T2z = self._Get_normalized_components(T2)
 
-        Ne, nPg = T1x.shape
+        # either direction may be a constant or a field
+        Ne, nPg = np.broadcast_shapes(T1x.shape, T2x.shape)
         firstDerivatives = FeArray.zeros(Ne, nPg, 6)
 
         coef = np.sqrt(2) / 2
